@@ -5,6 +5,8 @@
 (*   reset                                  a new run starts (fresh database)                  *)
 (*   author / open / deferred / reopen      the steps without storage writes                   *)
 (*   start   kind, tree, payload, retry     an operation starts (arguments as the driver chose)*)
+(*           cont                           AddRawRecords goes on with its next record (one    *)
+(*                                          spec operation and one transaction per record)     *)
 (*   call    name, fate                     ONE line per storage call recorded by the proxy    *)
 (*                                          database: the name must be the next call of the    *)
 (*                                          spec's program (two transactions where the spec    *)
@@ -41,15 +43,16 @@ TrReopen   == IsEvent("reopen") /\ Reopen
 \* an operation starts with the arguments of the log line; a re-issued operation must be the pending one
 TrStart ==
     /\ IsEvent("start")
-    /\ IF X.retry
-         THEN /\ pend.kind = X.kind /\ pend.t = X.t /\ OpRetry
+    /\ IF X.retry \/ X.cont
+         \* a re-issued operation / the next record of an AddRawRecords call must be the pending one
+         THEN /\ pend.kind = X.kind /\ pend.t = X.t /\ pend.cont = X.cont /\ OpRetry
          ELSE /\ Quiet
               /\ CASE X.kind = "space"  -> StartSpace(FALSE)
                    [] X.kind = "create" -> StartCreate(X.t, FALSE)
                    [] X.kind = "local"  -> StartLocal(X.t, X.snap, FALSE)
                    [] X.kind = "localv" -> StartLocalRejected(X.t, X.snap)
                    [] X.kind = "remote" -> StartRemote(X.t, Set(X.set), FALSE)
-                   [] X.kind = "acl"    -> StartAcl(X.i, FALSE)
+                   [] X.kind = "acl"    -> StartAcl(X.lo, X.hi, X.batch, FALSE, FALSE)
                    [] X.kind = "delete" -> StartDelete(X.t, FALSE)
                    [] OTHER -> FALSE
     \* the change AddContent built has the id the spec expects
@@ -76,7 +79,7 @@ TrEnd ==
     /\ {i \in Ids : disk.ord[i] # 0} = Set(X.disk.stored)
     /\ \A t \in Trees : HeadsEq(disk.heads[t], X.disk.heads[t])
     /\ disk.acl = Set(X.disk.acl) /\ disk.aclHead = X.disk.aclHead
-    /\ mem.acl = X.mem.acl
+    /\ mem.acl = X.mem.acl /\ mem.known = Set(X.mem.known)
     /\ mem.space => (mem.obsAcl = X.mem.obsAcl /\ \A t \in Trees : mem.obs[t] = Set(X.mem.obs[t]))
     /\ \A t \in Trees : /\ (mem.tr[t].st = "open") = (X.mem.tr[t].st = "open")
                         /\ (mem.tr[t].st = "open" /\ mem.tr[t].def # "pending") =>
